@@ -6,7 +6,7 @@ from .encoders import encode_multipart
 from .wsgi import make_environ
 
 KINDS = ['ok', 'ok_json_accept', 'notfound', 'notfound_json', 'wrongverb', 'badpath', 'badchunk', 'oversized', 'badmultipart', 'badjson', 'crash', 'raised', 'gen', 'form',
-         'cookie_then_abort', 'head_ok', 'rex', 'typed', 'expires', 'longpath', 'longquery', 'status_str', 'status_int', 'signed', 'urlinfo', 'auth', 'bigform', 'chunked_ok', 'header_case', 'inject_arg', 'notmodified', 'nocontent', 'blog_direct', 'dm_info']
+         'cookie_then_abort', 'head_ok', 'rex', 'typed', 'expires', 'longpath', 'longquery', 'status_str', 'status_int', 'signed', 'urlinfo', 'auth', 'bigform', 'chunked_ok', 'header_case', 'inject_arg', 'notmodified', 'nocontent', 'blog_direct', 'dm_info', 'resp_copy', 'form_fixed', 'sess_mutate']
 
 
 _DEFAULT_ERRORS = []
@@ -211,6 +211,31 @@ def make_app(probe=None, config=None, private_errors=False, app=None, foreign=No
         p('notmod:end')
         return ''
 
+    @app.route('/rcopy', overwrite=True)
+    def rcopy():
+        q = rq.query.get('q', '')
+        rs.status = 201
+        rs.headers['X-Mine'] = q
+        rs.set_cookie('mine', 'm' + q)
+        p('rcopy:before')
+        try:
+            c = rs.copy()                     # a copy of the response being assembled (what this returns, or whether it raises, is the same alone and in company)
+            info = '%s %s' % (type(c).__name__, c.status)
+        except Exception as e:
+            info = 'copy failed: ' + type(e).__name__
+        p('rcopy:after')
+        return 'rcopy %s %s' % (q, info)
+
+    @app.route('/sess', overwrite=True)
+    def sess():
+        # a session stored in a signed cookie; the handler updates the decoded session in place (and does not send it back)
+        d = rq.get_cookie('sess', secret='sess-secret')
+        if not isinstance(d, dict):
+            return 'sess none'
+        d['visits'] = d.get('visits', 0) + 1
+        d.setdefault('seen', []).append(rq.query.get('q', ''))
+        return 'sess visits=%d seen=%d' % (d['visits'], len(d['seen']))
+
     @app.route('/abort', overwrite=True)
     def ab():
         rs.set_cookie('pre', 'abort' + rq.query.get('q', ''))
@@ -272,6 +297,17 @@ def make_env(kind, n, stream_cls=Stream):
         payload = (b'payload-%d-' % n) * (2 + n % 3)
         wire, _ = encode_chunked(payload, [11 + n % 5, 17, 300], [{'upper': bool(n % 2), 'zeros': n % 3}], ['x=%d' % n, None], trailers=['X-T: %d' % n])
         return _e('POST', '/body', q, stream=stream_cls(wire), content_length=None, headers={'Transfer-Encoding': 'chunked'})
+    if kind == 'resp_copy':
+        return _e('GET', '/rcopy', q)
+    if kind == 'form_fixed':
+        # every request of this kind uses the SAME boundary string (only the values differ)
+        data, _ = encode_multipart('fixed-boundary-7d1', [{'name': 'a', 'value': b'v%d' % n}, {'name': 'b', 'value': b'w' * (n % 5)}], b'', b'\r\n')
+        return _e('POST', '/form', q, stream=stream_cls(data), content_length=len(data), headers={'Content-Type': 'multipart/form-data; boundary=fixed-boundary-7d1'})
+    if kind == 'sess_mutate':
+        import base64, hashlib, hmac, pickle
+        msg = base64.b64encode(pickle.dumps(('sess', {'visits': 1, 'user': 'u'}), -1))          # the byte-identical cookie whatever n is
+        sig = base64.b64encode(hmac.new(b'sess-secret', msg, digestmod=hashlib.md5).digest())
+        return _e('GET', '/sess', q, headers={'Cookie': 'sess="!%s?%s"' % (sig.decode(), msg.decode())})
     if kind == 'header_case':
         return _e('GET', '/hcase', q)
     if kind == 'inject_arg':
